@@ -566,6 +566,9 @@ NsC06(bool thorough, int part)
     ns = {4096, 100000};
   } else if (part == 3 && thorough) {
     ns = {1000000};
+  } else if (part == 4 && thorough) {
+    for (uint64_t n = 131; n < 199; n += 7) ns.push_back(n);
+    ns.insert(ns.end(), {300, 500, 777, 2000, 5000, 65536});
   }
   return ns;
 }
@@ -626,8 +629,11 @@ RunJobT(const std::string &kind, int part, bool thorough)
       ns = {1000000};
     } else if (part == 4 && thorough) {
       ns = {3000000};
+    } else if (part == 5 && thorough) {
+      ns = {131, 150, 300, 500, 777, 1500, 5000, 50000};
     }
     auto alphas = AlphasC18(thorough);
+    if (part == 5) alphas = AlphasC18(false);
     if (part >= 3) {
       // very large n: coarser alpha grid plus the shortcut neighbourhood
       alphas = {0.0, 0.5, 0.85, 0.99, 1.0 - 1e-15, 1.0 - 1e-9, std::nextafter(1.0, 0.0), 1.0, std::nextafter(1.0, 2.0), 1.0 + 1e-9, 1.05, 1.1, 1.2, 1.5, 2.0, 3.0, 50.0};
@@ -753,16 +759,16 @@ main(int argc, char **argv)
   if (prop == "C06") {
     for (const char *kind : {"c06e", "c06a"})
       for (const char *t : types)
-        for (int part = 0; part < (thorough ? 4 : 2); ++part) jobs.push_back(vs::Job{std::string(kind) + ":" + t + ":" + std::to_string(part), ""});
+        for (int part = 0; part < (thorough ? 5 : 2); ++part) jobs.push_back(vs::Job{std::string(kind) + ":" + t + ":" + std::to_string(part), ""});
     for (const char *t : {"u64", "i32"})
       for (int part = 0; part < 4; ++part) jobs.push_back(vs::Job{std::string("c06j:") + t + ":" + std::to_string(part), ""});
   } else if (prop == "C18") {
     for (const char *kind : {"c18e", "c18a"})
       for (const char *t : types)
-        for (int part = 0; part < (thorough ? 5 : 4); ++part) {
+        for (int part = 0; part < (thorough ? 6 : 4); ++part) {
           if (!thorough && part == 2) continue;
           if (!thorough && part == 3 && (std::string(kind) != "c18a" || std::string(t) != "u64")) continue;  // quick: one large-n approximate job
-          if (thorough && part >= 2 && std::string(t) != "u64" && std::string(t) != "i32") continue;  // large n: two types suffice (same code path)
+          if (thorough && part >= 2 && part <= 4 && std::string(t) != "u64" && std::string(t) != "i32") continue;  // large n: two types suffice (same code path)
           jobs.push_back(vs::Job{std::string(kind) + ":" + t + ":" + std::to_string(part), ""});
         }
   } else if (prop == "C19") {
